@@ -343,7 +343,11 @@ def boundary_2d(cx):
                             return "the non in-place call modified the network"
                         if capped:
                             return check_cap(r, cap, D * (1 if layers is None or lt is not None else D))
+                        # fitting / gauge based modes converge to ~1e-6; the Gram-matrix based ones (projector*, dm, full-bond) work
+                        # with eigendecompositions of squared quantities and are accurate to ~sqrt(machine eps) x conditioning
                         loose = 100 if (mode.startswith(("fit", "src")) or mode in ("su", "superorthogonal", "l2bp")) else 1
+                        if mode.startswith("projector") or mode in ("dm", "full-bond"):
+                            loose = 1000  # (1e-5 relative in double precision; observed 3.5e-6 on a rank-deficient norm network)
                         return cmp_value(value_of(r), ex, tol * loose, "value of the network after the step")
 
                     cx.check("contract_boundary_from_{xmin,xmax,ymin,ymax}: one inward step keeps the value (untruncated) / obeys the cap",
